@@ -13,7 +13,7 @@ Section watch.
     apply (reachable_ind fx w g roots (fun s => forall t a, actors s !! t = Some a -> flags_ok a)); [| |done].
     - intros t a Ha. apply (init_actor_lookup g roots) in Ha as (k & deps & _ & ->). by intros ?.
     - intros s0 l s1 _ IH He t a Ha.
-      destruct (exec_inv _ _ _ _ _ He) as [t0 a0 e ok a0' os ob Ha0 Hst Hact _ _ _ _ _ _ _ _ _ _ _|Hact _ _ _ _ _|ts _ Hact _ _ _ _ _ _];
+      destruct (exec_inv _ _ _ _ _ He) as [t0 a0 e ok a0' os ob Ha0 Hst Hact _ _ _ _ _ _ _ _ _ _ _ _|Hact _ _ _ _ _|ts _ Hact _ _ _ _ _ _];
         rewrite Hact in Ha; [|by eapply IH|by eapply IH].
       destruct (decide (t = t0)) as [->|Hne].
       + rewrite lookup_insert in Ha. injection Ha as <-. eapply step_flags_ok; [done|by eapply IH].
